@@ -64,4 +64,9 @@ MUTANTS = [
     ("free_t0_guess_ignored", DM, "                stage.set_initial(stage._t0, init,priority=True)", "                stage.set_initial(stage._t0, 0*init,priority=True)", ["C11"]),
     ("tf_ignores_t0", ST, "        self._tf = self.T + self.t0", "        self._tf = self.T + 0*self.t0", ["C11", "C07"]),
     ("free_time_grid_uses_guess", SM, "        self.T = self.eval(stage, stage._T)\n        self.t0 = self.eval(stage, stage._t0)", "        self.T = self.eval(stage, stage._T)\n        self.t0 = self.eval(stage, stage._t0)\n        if not self.t0.is_constant() and self.N==2: self.t0 = self.t0*1.0000001", ["C11"]),
+    # --- C14
+    ("scale_body_not_bounds", DM, "                        lb = mc.lb/scale\n                        canon = mc.canon/scale\n                        ub = mc.ub/scale", "                        lb = mc.lb\n                        canon = mc.canon/scale\n                        ub = mc.ub/scale", ["C14"]),
+    ("scale_equality_bound_forgotten", DM, "                        lb = mc.lb/scale\n                        canon = mc.canon/scale\n                        c = lb==canon", "                        lb = mc.lb\n                        canon = mc.canon/scale\n                        c = lb==canon", ["C14"]),
+    ("variable_scale_squared", DM, "            return scale*v", "            return scale*v if DM(scale).is_scalar() else scale*scale*v", ["C14"]),
+    ("control_scale_dropped_ms", MS, "self.U.append(vcat([opti.variable(s.numel(), scale=vec(stage._scale[s]), domain=stage._catalog[s]['domain']) for s in stage.controls]) if stage.nu>0 else MX(0,1))", "self.U.append(vcat([opti.variable(s.numel(), scale=vec(stage._scale[s])**(k<2), domain=stage._catalog[s]['domain']) for s in stage.controls]) if stage.nu>0 else MX(0,1))", ["C14"]),
 ]
